@@ -12,11 +12,6 @@ from ..bounds2 import Bounder, Cap
 LIMIT = 65536        # TAR_MAX_PATH_LEN / _SYMLINK_LEN / _PAX_LEN / _SPARSE_ENT (include/tar/format.h)
 
 EXCEPTIONS = {
-    ("mknode", "strcpy", 0):
-        "the allocation is enlarged by strlen(extra) + 1 under the same condition (extra != NULL) that guards this copy; "
-        "the engine does not correlate the two branches",
-    ("decode_flags", "memmove", 0):
-        "shift-left inside the caller's line: 'end' was found by scanning forward from 'start' in the same string",
     ("precache", "memmove", 0):
         "compaction inside the object's own fixed buffer: buffer_offset < buffer_used <= BUFSZ is the stream's invariant "
         "(buffer_used is only ever set from process_data's out_off, which is bounded by the BUFSZ - out_off it was given)",
